@@ -163,37 +163,65 @@ def outcome(case):
     return judge(rounds[-1], got)[1]
 
 
-def has(probs, rule, cat):
-    return any(r == rule and c == cat for r, c, _ in probs)
+def find(probs, rule):
+    for r, c, d in probs:
+        if r == rule:
+            return c, d
+    return None
+
+
+def broken(probs):
+    return any(r in ("does-not-return", "raises") for r, _, _ in probs)
+
+
+def drop_redirects(graph):
+    return {"pages": [{"t": p["t"], "r": None, "u": list(p["u"]), "f": p["f"]} for p in graph["pages"]]}
 
 
 def diagnose(case, probs):
-    """Name the mechanism of each problem of `case` by dropping features until it disappears.
+    """Name the mechanism of each problem of `case` by dropping features until it disappears:
+    earlier rounds -> non-canonical spellings -> redirect pages.  A feature whose removal makes the
+    disagreement vanish is the mechanism tag; otherwise the simpler case replaces the witness and the
+    category (why the model marks the missed page) is taken from the simplest failing version, so that
+    a propagation failure that merely *shows* in the redirect phase is named by its root.
     -> list of (sig, msg, witness case)."""
     out = []
     rounds = case["rounds"]
-    last = rounds[-1]
     for rule, cat, detail in probs:
-        base = "%s/%s" % (rule, cat)
         if rule in ("does-not-return", "raises"):
-            out.append((base, detail, case))
+            out.append(("%s/%s" % (rule, cat), detail, case))
             continue
-        wit = case
+        wit, last = case, rounds[-1]
+        tag = None
         if len(rounds) > 1:
             single = {"rounds": [last]}
-            if not has(outcome(single), rule, cat):
-                out.append((base + "/only-after-an-earlier-analysis-in-the-same-context", detail, case))
-                continue
-            wit = single
+            o = outcome(single)
+            if not broken(o):
+                f = find(o, rule)
+                if f is None:
+                    tag = "only-after-an-earlier-analysis-in-the-same-context"
+                else:
+                    wit, (cat, detail) = single, f
         canon = M.canonicalise(last)
-        if canon != last:
+        if tag is None and canon != last:
             c2 = {"rounds": [canon]}
-            if not has(outcome(c2), rule, cat):
-                out.append((base + "/used-name-not-canonical-title", detail, wit))
-                continue
-            wit = c2
-        out.append((base, detail, wit))
+            o = outcome(c2)
+            if not broken(o):
+                f = find(o, rule)
+                if f is None:
+                    tag = "used-name-not-canonical-title"
+                else:
+                    wit, last, (cat, detail) = c2, canon, f
+        if tag is None and len(wit["rounds"]) == 1 and any(p["r"] is not None for p in last["pages"]):
+            c3 = {"rounds": [drop_redirects(last)]}
+            o = outcome(c3)
+            if not broken(o):
+                f = find(o, rule)
+                if f is not None:
+                    wit, (cat, detail) = c3, f
+        out.append(("%s/%s" % (rule, tag or cat), detail, wit))
     return out
+
 
 
 def sigs_of(case):
@@ -376,8 +404,11 @@ class Shard:
                 if self.minimised.get(sig, 0) < 2:
                     self.minimised[sig] = self.minimised.get(sig, 0) + 1
                     wit = minimise(wit, sig)
-                    m2, p2 = judge(wit["rounds"][-1], run_rounds(wit["rounds"])[-1][0])
-                    msg = "; ".join(d for _, _, d in p2) or msg
+                    try:
+                        m2, p2 = judge(wit["rounds"][-1], run_rounds(wit["rounds"])[-1][0])
+                        msg = "; ".join(d for _, _, d in p2) or msg
+                    except (Exception, CpuBudget):
+                        pass
                 obs.violation(sig, msg, wit)
 
 
